@@ -82,13 +82,17 @@ def run(tier, mode):
         sp = r.choice(spellings_partial(t, ns, g, ew, has_ns, has_ew))
         text = sp + ' Sec 14: NE/4'
         texts.append(text)
-        channel = r.choice(['config', 'keyword', 'master'])
+        channel = r.choice(['config', 'keyword', 'master', 'cfg_ns_kw_ew', 'cfg_ew_kw_ns'])
         old = (MC.default_ns, MC.default_ew)
         try:
             if channel == 'config':
                 d = H.call(pytrs.PLSSDesc, text, config=f'{ns},{ew}')
             elif channel == 'keyword':
                 d = H.call(lambda: (lambda o: (o.parse(default_ns=ns, default_ew=ew), o)[1])(pytrs.PLSSDesc(text, wait_to_parse=True)))
+            elif channel == 'cfg_ns_kw_ew':   # one axis from the config string, the other from a parse keyword
+                d = H.call(lambda: (lambda o: (o.parse(default_ew=ew), o)[1])(pytrs.PLSSDesc(text, config=f'{ns},wait_to_parse')))
+            elif channel == 'cfg_ew_kw_ns':
+                d = H.call(lambda: (lambda o: (o.parse(default_ns=ns), o)[1])(pytrs.PLSSDesc(text, config=f'{ew},wait_to_parse')))
             else:
                 MC.default_ns, MC.default_ew = ns, ew
                 d = H.call(pytrs.PLSSDesc, text)
@@ -140,7 +144,7 @@ def run(tier, mode):
     parts['oracle_on_code'] = {
         'evaluations': n_or, 'distinct_nontrivial': len(nontriv), 'impl_failures': fails, 'n_impl_failures': len(fails), 'distribution': dist,
         'rule': 'numbers (1-3 digits; range 2 only with an explicit R) x directions x every documented spelling in four contexts: pp_desc holds T<t><NS>-R<r><EW>, the tract has the '
-                'standard trs, find_twprge agrees, explicit directions are never overridden by defaults; spellings without N/S and/or E/W x default from config / parse keyword / '
+                'standard trs, find_twprge agrees, explicit directions are never overridden by defaults; spellings without N/S and/or E/W x default from config / parse keyword / one axis each / '
                 'MasterConfig: filled in and reported by fixed_twprge<..>; ocr_scrub with look-alike letters; several Twp/Rges in reading order; non-trivial = case held',
         'samples': [{'text': 'Twp. 154 N., Rge. 97 W. Sec 14: NE/4'}, {'text': 'T154-R97 Sec 14: NE/4', 'channel': 'master', 'defaults': ['s', 'e']}]}
     return merge(parts)
